@@ -27,6 +27,9 @@ RULES = {
     "noise; paths/queries over all byte values incl. NUL, %, non-UTF-8; bodies: valid/truncated/bit-flipped JSON, urlencoded, "
     "multipart, invalid UTF-8, unknown charsets. Every accessor of wsgi.Request and asgi.Request is probed; non-trivial = a probed "
     "header is present and is not one of the canonical valid samples, or the path/query/body is non-ASCII or mutated",
+    "sweep": "enumerated: every value of the per-header dictionaries (valid and hostile, plus dates at the edges of the representable range with "
+    "every kind of zone) as the only header of a request, through every request accessor",
+    "sweep_apps": "enumerated: the same single-header requests aimed at an existing file, a directory and a typed route of the bundled applications",
     "apps": "Hypothesis: the same hostile paths/headers against Router (one route per convertor type), Subpaths, Hosts, Files, Pages and "
     "FileResponse on both interfaces",
     "parsers": "Hypothesis: parse_range, URL() and its properties / replace, parse_header, MediaType, ContentType, QueryParams and the event-level "
@@ -312,7 +315,7 @@ def oracle_parsers(case) -> Result:
     return r
 
 
-SUBS = {"request": oracle_request, "apps": oracle_apps, "parsers": oracle_parsers}
+SUBS = {"request": oracle_request, "apps": oracle_apps, "parsers": oracle_parsers, "sweep": oracle_request, "sweep_apps": oracle_apps}
 
 # ------------------------------------------------------------------------------------------
 # generators
@@ -541,9 +544,41 @@ def oracle_atheris(case) -> Result:
 
 SUBS["atheris"] = oracle_atheris
 
+def _clean(v: str) -> str:
+    v = v.replace("\r", "").replace("\n", "").strip(" \t")
+    try:
+        v.encode("latin-1")
+    except UnicodeEncodeError:
+        v = v.encode("utf-8").decode("latin-1")
+    return v
+
+
+def sweep_cases(for_apps: bool):
+    """Every dictionary value of every header name on its own (the random sub-checks combine them; this
+    makes sure each single value is met at every seed).  For the application sweep the request names an
+    existing file / route so that validators and ranges are actually evaluated."""
+    extra_dates = [
+        "Fri, 31 Dec 9999 23:59:59 -0030", "Fri, 31 Dec 9999 23:59:59 PST", "Fri, 31 Dec 9999 23:59:59 -2359", "Mon, 01 Jan 0001 00:00:00 +0001",
+        "Mon, 01 Jan 0001 00:00:00 +2359", "Mon, 01 Jan 0001 00:00:00 EST", "Fri, 31 Dec 9999 23:59:59 GMT", "Mon, 01 Jan 0001 00:00:00 GMT",
+        "Thu, 01 Jan 1970 00:00:00 +2400", "Sat, 29 Feb 2021 00:00:00 GMT", "Wed, 21 Oct 2015 07:28:60 GMT", "Wed, 21 Oct 2015 24:00:00 GMT",
+    ]
+    for name in sorted(VALID):
+        values = list(VALID[name]) + list(HOSTILE[name])
+        if name in ("Date", "If-Modified-Since", "If-Range"):
+            values += extra_dates
+        for v in values:
+            paths = [b"/"] if not for_apps else [b"/file.txt", b"/dir/", b"/i/42"]
+            for path in paths:
+                rq = gw.areq(method="GET", headers=[[name, _clean(v)]], body=[b""], query=b"", path_bytes=path, path="/")
+                yield {"request": rq, "hostile": True, "labels": [f"sweep={name}"]}
+
+
 def run(rec, only=None):
     quick = rec.tier == "quick"
     mb = 2 if quick else 12
+    core.drive_cases(rec, "sweep", sweep_cases(False), oracle_request)
+    core.drive_cases(rec, "sweep_apps", sweep_cases(True), oracle_apps)
+    rec.exhaustive["sweep"] = rec.exhaustive["sweep_apps"] = True
     core.drive_hypothesis(rec, "request", request_case(), oracle_request, 3000 if quick else 60000, max_buckets=mb)
     core.drive_hypothesis(rec, "apps", request_case(True), oracle_apps, 1500 if quick else 30000, seed_offset=1, max_buckets=mb)
     core.drive_hypothesis(rec, "parsers", parser_case(), oracle_parsers, 3000 if quick else 60000, seed_offset=2, max_buckets=mb)
